@@ -39,8 +39,8 @@ ASSUMPTIONS = [
     "umask 022 during every invocation",
 ]
 BOUNDS = {
-    "quick": "fast: 16 helpers x EAPI {0,2,3,4,6,7,8} x up to 3 destinations x up to 3 option strings x 4-12 argument lists (2362 invocations); sym: all 25 x 23 (source, link) pairs incl. un-normalised spellings; e2e: 67 real-daemon src_install sessions (27 each for EAPI 0 and 8, 8 for EAPI 4, 5 for EAPI 7)",
-    "thorough": "fast: EAPI 0-8, destinations {default,/,/usr,/opt/x,/opt/x/,dir with space} x all option strings x all argument lists (5419 invocations); sym: 131 x 76 pairs; e2e: 504 real-daemon sessions (56 per EAPI 0-8)",
+    "quick": "fast: 16 helpers x EAPI {0,2,3,4,6,7,8} x up to 3 destinations x up to 3 option strings x 4-12 argument lists (2362 invocations); sym: all 25 x 23 (source, link) pairs incl. un-normalised spellings; e2e: 21 real-daemon src_install sessions (every helper once; 5/5/5/6 sessions for EAPI 0/4/7/8 covering each band's rules)",
+    "thorough": "fast: EAPI 0-8, destinations {default,/,/usr,/opt/x,/opt/x/,dir with space} x all option strings x all argument lists (6391 invocations); sym: 131 x 76 pairs; e2e: 504 real-daemon sessions (56 per EAPI 0-8)",
 }
 
 TIME_CAP = {"thorough": 840}
@@ -589,7 +589,7 @@ def fast_invocations(tier):
             for io in insopts:
                 for a in files1:
                     add("doins", eapi, {"insinto": insinto, "insopts": io}, a)
-        for insinto in insintos[:2] + insintos[-1:]:
+        for insinto in insintos:
             for io in insopts[:2]:
                 for do in diropts:
                     for a in (["p"], ["d"], ["p", "f.txt"], ["p/sub"], ["p/"], ["g"]):
@@ -804,12 +804,16 @@ def replay(case):
 # sources ${T}/verif-script.sh, then one real "install" phase per session with a freshly written script
 # (destination/option commands, then ONE helper call resolved through the EAPI's real helper PATH).
 E2E_CHUNK = 9
-# quick tier: indices into the base session list of e2e_invs (one or two sessions per helper; every reject rule) for
-# EAPI 0 and 8; EAPI 4 and 7 only add the sessions whose verdict changes there (helpers die instead of returning
-# non-zero, dodoc -r, dohard banned, -i18n precedence / dolib and dohtml banned)
-QUICK_E2E = {0, 1, 3, 5, 6, 7, 8, 10, 11, 13, 15, 17, 18, 19, 20, 22, 24, 25, 27, 29, 31, 32, 33, 35, 36, 37, 38}
-QUICK_E2E_EAPI4 = {11, 13, 18, 19, 24, 25, 35, 38}
-QUICK_E2E_EAPI7 = {5, 7, 20, 29, 38}
+# quick tier (21 real-daemon sessions, one task per EAPI band): indices into the base session list of e2e_invs.
+# Every helper once; every band's own rules: EAPI 0 (failing helper returns non-zero, dohard/dolib/dohtml allowed,
+# dodoc dir rejected), EAPI 4 (helpers die, dodoc -r, dohard banned, -i18n, dangling symlink kept), EAPI 7 (dolib and
+# dohtml banned), EAPI 8 (dosym -r).  The full list x EAPI 0-8 is the thorough tier.
+QUICK_E2E = {
+    0: {1, 7, 18, 29, 38},  # dobin into, dolib, dodoc dir (non-fatal reject), dohtml -r, dohard
+    4: {13, 15, 19, 25, 38},  # doins -r dangling, doexe opts, dodoc -r, doman -i18n, dohard banned
+    7: {5, 7, 20, 27, 29},  # dolib.so, dolib banned, doinfo, domo into, dohtml banned
+    8: {3, 6, 10, 31, 32, 37},  # dosbin, dolib.a, doins insinto+insopts, dodir diropts, keepdir, dosym -r
+}
 
 
 def e2e_invs(eapi, tier):
@@ -860,7 +864,7 @@ def e2e_invs(eapi, tier):
     add("dosym", {}, ["/usr/bin/real", "/usr/share/a/link"], flags=["-r"])
     add("dohard", {}, ["/real", "/other/hard"], pre_files={"/real": "realfile\n"})
     if tier == "quick":
-        keep = {0: QUICK_E2E, 8: QUICK_E2E, 4: QUICK_E2E_EAPI4, 7: QUICK_E2E_EAPI7}[eapi]
+        keep = QUICK_E2E[eapi]
         return [inv for i, inv in enumerate(out) if i in keep]
     if tier == "thorough":
         add("dobin", {"into": "/usr"}, ["sp ace.txt"])
